@@ -202,7 +202,26 @@ impl<'a, B: SddBuilder<'a>> Session<'a, B> {
                 Some(guarded(|| b.negate(x)))
             }
             "and" | "or" | "xor" | "iff" => {
-                let (a, c) = (self.arg(rng), self.arg(rng));
+                let (mut a, mut c) = (self.arg(rng), self.arg(rng));
+                if rng.chance(2, 3) {
+                    // steer towards the interesting case: two different pointers that (according to the library's own
+                    // evaluator - this only chooses the arguments, the verdict is TLC's) denote the same function
+                    let pool = &self.pool;
+                    let tts = guarded(|| {
+                        pool.iter()
+                            .map(|p| (0..1usize << nv).map(|m| p.evaluate(&(0..nv).map(|v| m >> v & 1 == 1).collect::<Vec<_>>())).collect::<Vec<bool>>())
+                            .collect::<Vec<_>>()
+                    });
+                    if let Ok(tts) = tts {
+                        let same: Vec<usize> = (0..K).filter(|s| *s != a && tts[*s] == tts[a] && pool[*s] != pool[a]).collect();
+                        if !same.is_empty() {
+                            c = same[rng.below(same.len())];
+                            if rng.coin() {
+                                std::mem::swap(&mut a, &mut c);
+                            }
+                        }
+                    }
+                }
                 ev["a"] = json!([a, c]);
                 let (x, y) = (self.pool[a], self.pool[c]);
                 Some(guarded(|| match op {
@@ -277,7 +296,26 @@ impl<'a, B: SddBuilder<'a>> Session<'a, B> {
         }
         let r: Result<(), String> = match op {
             "eq" => {
-                let (a, c) = (self.arg(rng), self.arg(rng));
+                let (mut a, mut c) = (self.arg(rng), self.arg(rng));
+                if rng.chance(2, 3) {
+                    // steer towards the interesting case: two different pointers that (according to the library's own
+                    // evaluator - this only chooses the arguments, the verdict is TLC's) denote the same function
+                    let pool = &self.pool;
+                    let tts = guarded(|| {
+                        pool.iter()
+                            .map(|p| (0..1usize << nv).map(|m| p.evaluate(&(0..nv).map(|v| m >> v & 1 == 1).collect::<Vec<_>>())).collect::<Vec<bool>>())
+                            .collect::<Vec<_>>()
+                    });
+                    if let Ok(tts) = tts {
+                        let same: Vec<usize> = (0..K).filter(|s| *s != a && tts[*s] == tts[a] && pool[*s] != pool[a]).collect();
+                        if !same.is_empty() {
+                            c = same[rng.below(same.len())];
+                            if rng.coin() {
+                                std::mem::swap(&mut a, &mut c);
+                            }
+                        }
+                    }
+                }
                 ev["a"] = json!([a, c]);
                 let (x, y) = (self.pool[a], self.pool[c]);
                 guarded(|| b.eq(x, y)).map(|r| ev["val"] = json!(r))
